@@ -726,3 +726,44 @@ _run_c07d = run
 def run(ctx):  # noqa: F811
     _run_c07d(ctx)
     r07_8(ctx, ctx.model)
+
+
+def r07_9(ctx, m):
+    """the container of a multi-field is immutable too"""
+    ctx.rule("R07.9", "MultiField stores its entries in a tuple: the constructor only accepts a tuple (or converts to one) before "
+                      "`self._val = ...`; a caller-owned list stored as is could be modified afterwards (and values() hands the same "
+                      "object out), changing the multi-field although every Field in it is locked", floor=1)
+    MF = m.cls(MFLD, "MultiField")
+    ini = MF.methods["__init__"]
+    ctx.saw_func(ini)
+    valn = ini.params()[2] if len(ini.params()) > 2 else "val"
+    store = [st for st in walk_no_nested(ini.node) if isinstance(st, ast.Assign) and src(st.targets[0]) == "self._val"]
+    key = f"{ini.key}::entries are stored as a tuple"
+    if len(store) != 1:
+        ctx.und("R07.9", key, f"{len(store)} stores of self._val", ini)
+        return
+    v = store[0].value
+    if isinstance(v, ast.Call) and src(v.func) == "tuple":
+        ctx.ok("R07.9", key, src(v), ini, store[0])
+        return
+    cfg = cfg_of(ini)
+    nodes = [n for n in cfg.nodes if n.kind == "stmt" and n.ast is store[0]]
+    types = None
+    for n in cfg.nodes:
+        if n.kind == "stmt" and isinstance(n.ast, ast.Raise):
+            for t, pol in known_atoms(cfg, n.id):
+                if isinstance(t, ast.Call) and src(t.func) == "isinstance" and len(t.args) == 2 and src(t.args[0]) == valn and not pol:
+                    ty = t.args[1]
+                    types = {src(e) for e in ty.elts} if isinstance(ty, ast.Tuple) else {src(ty)}
+    if src(v) != valn or types is None:
+        ctx.und("R07.9", key, f"`{src(store[0])}`; accepted types {types}", ini, store[0])
+    else:
+        ctx.check("R07.9", key, types <= {"tuple"}, f"`{src(store[0])}` with accepted types {sorted(types)}: a mutable container becomes the storage", ini, store[0])
+
+
+_run_c07e = run
+
+
+def run(ctx):  # noqa: F811
+    _run_c07e(ctx)
+    r07_9(ctx, ctx.model)
